@@ -5,6 +5,7 @@ import (
 	"compress/flate"
 	"encoding/xml"
 	"io"
+	"reflect"
 )
 
 func inflate(b []byte) ([]byte, error) {
@@ -12,3 +13,55 @@ func inflate(b []byte) ([]byte, error) {
 }
 
 func xmlUnmarshal(b []byte, v interface{}) error { return xml.Unmarshal(b, v) }
+
+// scribbleDeep overwrites, in place, everything the holder of a result can write to: strings,
+// numbers and booleans in every exported field, every element of every slice (without
+// appending, so that a shared backing array is written through) and every map entry.
+func scribbleDeep(v reflect.Value, depth int, seen map[uintptr]bool) {
+	if depth > 14 || !v.IsValid() {
+		return
+	}
+	switch v.Kind() {
+	case reflect.Ptr:
+		if v.IsNil() || seen[v.Pointer()] {
+			return
+		}
+		seen[v.Pointer()] = true
+		scribbleDeep(v.Elem(), depth+1, seen)
+	case reflect.Interface:
+		if !v.IsNil() {
+			scribbleDeep(v.Elem(), depth+1, seen)
+		}
+	case reflect.Struct:
+		for i := 0; i < v.NumField(); i++ {
+			if v.Type().Field(i).PkgPath != "" {
+				continue // unexported
+			}
+			scribbleDeep(v.Field(i), depth+1, seen)
+		}
+	case reflect.Slice, reflect.Array:
+		for i := 0; i < v.Len(); i++ {
+			scribbleDeep(v.Index(i), depth+1, seen)
+		}
+	case reflect.Map:
+		for _, k := range v.MapKeys() {
+			v.SetMapIndex(k, reflect.Zero(v.Type().Elem()))
+		}
+	case reflect.String:
+		if v.CanSet() {
+			v.SetString("scribbled")
+		}
+	case reflect.Bool:
+		if v.CanSet() {
+			v.SetBool(!v.Bool())
+		}
+	case reflect.Int, reflect.Int8, reflect.Int16, reflect.Int32, reflect.Int64:
+		if v.CanSet() {
+			v.SetInt(-7)
+		}
+	case reflect.Uint, reflect.Uint8, reflect.Uint16, reflect.Uint32, reflect.Uint64:
+		if v.CanSet() {
+			v.SetUint(0x58)
+		}
+	}
+}
